@@ -26,6 +26,7 @@ type cs struct {
 	Services string `json:"services"`
 	Static   bool   `json:"static"`
 	Exposure string `json:"exposure"`
+	Prev     string `json:"prev"`
 }
 
 type rec struct {
@@ -45,15 +46,23 @@ func val(v string) string {
 }
 
 func worldNF(base string, c cs, target string) (*cfgnf.NF, error) {
-	w, err := world.New(base, nil, pipeline.Options{WatchWithoutClass: true, ConfigMapName: "ingress/cfg", AllowCrossNamespace: c.Static})
+	w, err := world.New(base, nil, pipeline.Options{WatchWithoutClass: true, ConfigMapName: "ingress/cfg", AllowCrossNamespace: c.Static,
+		Gateway: c.Site == "gateway-certref"})
 	if err != nil {
 		return nil, err
 	}
 	defer w.Close()
 	p := w.P
-	p.Apply(kobj.ConfigMap("ingress", "cfg", map[string]string{
+	settings := map[string]string{
 		"external-has-lua": "true", "cross-namespace-secrets-crt": val(c.Crt), "cross-namespace-secrets-ca": val(c.CA),
-		"cross-namespace-secrets-passwd": val(c.Passwd), "cross-namespace-services": val(c.Services)}))
+		"cross-namespace-secrets-passwd": val(c.Passwd), "cross-namespace-services": val(c.Services)}
+	if c.Prev == "allow" {
+		p.Apply(kobj.ConfigMap("ingress", "cfg", map[string]string{
+			"external-has-lua": "true", "cross-namespace-secrets-crt": "allow", "cross-namespace-secrets-ca": "allow",
+			"cross-namespace-secrets-passwd": "allow", "cross-namespace-services": "allow"}))
+	} else {
+		p.Apply(kobj.ConfigMap("ingress", "cfg", settings))
+	}
 	for _, ns := range []string{"a", "b"} {
 		p.Apply(kobj.Service(ns, "app", nil, ":8080:8080"))
 		p.Apply(kobj.Endpoints(ns, "app", []string{"10.1.0.1:p"}, nil, ":8080"))
@@ -112,9 +121,29 @@ func worldNF(base string, c cs, target string) (*cfgnf.NF, error) {
 	case "auth-url-svc":
 		ann["auth-url"] = "svc://" + ref + ":8080/check"
 	}
-	p.Apply(kobj.Ingress("a", "mine", 1, ann, nil, []kobj.Rule{{Host: "a.local", Paths: []kobj.Path{{Path: "/", Svc: "app", Port: "8080"}}}}, tls, nil))
+	if c.Site == "gateway-certref" {
+		cr := kobj.CertRef{Name: ref}
+		if c.Form == "namespace" {
+			cr = kobj.CertRef{Name: target, Namespace: "b"}
+		}
+		p.Apply(kobj.GatewayClass("haproxy", pipeline.ControllerName))
+		p.Apply(kobj.Gateway("a", "gw", "haproxy", []kobj.Listener{{Name: "l1", Port: 443, Protocol: "HTTPS", From: "Same", CertRefs: []kobj.CertRef{cr}}}))
+		p.Apply(kobj.HTTPRoute("a", "rt", 1, []kobj.ParentRef{{Name: "gw"}}, []string{"a.local"}, "/", []kobj.BackendRef{{Svc: "app", Port: 8080, Weight: -1}}))
+	} else {
+		p.Apply(kobj.Ingress("a", "mine", 1, ann, nil, []kobj.Rule{{Host: "a.local", Paths: []kobj.Path{{Path: "/", Svc: "app", Port: "8080"}}}}, tls, nil))
+	}
+	if _, err := p.Reconcile(true); err != nil {
+		return nil, err
+	}
 	if _, err := p.ReconcilePending(false); err != nil {
 		return nil, err
+	}
+	if c.Prev == "allow" {
+		// the settings under test replace the permissive ones
+		p.Apply(kobj.ConfigMap("ingress", "cfg", settings))
+		if _, err := p.ReconcilePending(false); err != nil {
+			return nil, err
+		}
 	}
 	raw, err := cfgnf.Load(w.Opt.CfgDir(), w.Opt.Dir)
 	if err != nil {
